@@ -218,4 +218,33 @@ theorem insufficientBounded_of {s : Spec} {fuel0 : Nat} {ws : List GW} {N D : Na
   · rw [hd] at hd'; cases hd'
   · exact he
 
+/-! ### a hook given as `None` is not supplied -/
+
+/-- For every world, every hook `h` of `hs` given explicitly as `None` (in `__dict__`, holding `None`), every subset of the
+other members supplied, every read order and every fuel ≥ `fuel0`: the reads give exactly the results (symbolic values,
+error kinds) of the object that does not mention `h` at all; none runs out of fuel; no mark is left. -/
+def NoneIsAbsent (members : List String) (fuel0 : Nat) (ws : List GW) (hs : List String) : Prop :=
+  ∀ g ∈ ws, ∀ h ∈ hs, ∀ sup ∈ sublists (members.filter (· ≠ h)), ∀ ord ∈ perms members, ∀ fuel, fuel0 ≤ fuel →
+    (scenarioN g.world fuel (g.base ++ sup) [h] ord).1.map (·.res)
+        = (scenario g.world fuel (g.base ++ sup) ord).1.map (·.res) ∧
+    (∀ r ∈ (scenarioN g.world fuel (g.base ++ sup) [h] ord).1, r.res ≠ .err .fuel) ∧
+    (scenarioN g.world fuel (g.base ++ sup) [h] ord).2.active = []
+
+theorem noneIsAbsent_of {members : List String} {fuel0 : Nat} {ws : List GW} {hs : List String}
+    (hc : checkNone members fuel0 ws hs = true) : NoneIsAbsent members fuel0 ws hs := by
+  intro g hg h hh sup hsup ord ho fuel hf
+  simp only [checkNone, List.all_eq_true] at hc
+  have hrun := hc g hg h hh sup hsup ord ho
+  simp only [sameRun, Bool.and_eq_true, List.all_eq_true, beq_iff_eq, bne_iff_ne, ne_eq, List.isEmpty_iff] at hrun
+  obtain ⟨⟨⟨⟨he, ha⟩, hb⟩, hact⟩, _⟩ := hrun
+  obtain ⟨k, rfl⟩ := Nat.exists_eq_add_of_le hf
+  have ea : scenarioN g.world (fuel0 + k) (g.base ++ sup) [h] ord = scenarioN g.world fuel0 (g.base ++ sup) [h] ord := by
+    unfold scenarioN
+    exact readAll_mono _ _ _ _ _ (fun r hr => ha r hr)
+  have eb : scenario g.world (fuel0 + k) (g.base ++ sup) ord = scenario g.world fuel0 (g.base ++ sup) ord := by
+    unfold scenario
+    exact readAll_mono _ _ _ _ _ (fun r hr => hb r hr)
+  rw [ea, eb]
+  exact ⟨he, ha, hact⟩
+
 end Mutual
